@@ -76,10 +76,17 @@ def cmp_eigs(lam, w2, M):
             smin = np.linalg.svd(M - (l + 1j * z.imag) * np.eye(M.shape[0]), compute_uv=False)[-1]
             if smin > 1e-10 * nrm:
                 return 'eigenvalues %r differ from matrix EDMD %r' % (np.round(lam, 6), np.round(want, 6))
-    if np.all(np.abs(w2.imag) < 1e-9):
-        d = np.abs(lam - 1)
-        if np.any(np.diff(d) < -1e-6 * max(1.0, np.max(d))):
-            return 'eigenvalues %r are not ordered by distance to 1' % (np.round(lam, 6),)
+    # ordered by distance (of the eigenvalue, complex in general) to 1: within groups of (nearly) equal distance any
+    # order is admissible, the groups themselves must appear in order
+    ws = w2[np.argsort(np.abs(w2 - 1))]
+    dist = np.abs(ws - 1)
+    gap = 1e-6 * max(1.0, float(np.max(dist)))
+    start = 0
+    for k in range(1, len(ws) + 1):
+        if k == len(ws) or dist[k] - dist[k - 1] > gap:
+            if np.max(np.abs(np.sort(lam[start:k]) - np.sort(np.real(ws[start:k])))) > 10 * tol:
+                return 'eigenvalues %r are not ordered by distance to 1 (matrix EDMD, ordered: %r)' % (np.round(lam, 6), np.round(ws, 6))
+            start = k
     return None
 
 
